@@ -53,11 +53,41 @@ def checkColumns (n : Nat) : List Oid → Nat → List VarBind → Bool
     | none => false
     | some p => if decide (p < vb.1) then checkColumns n (prev.set col vb.1) (i + 1) rest else false
 
+/-- completion loop of `Client._bulkwalk_fetcher`: while the response holds fewer bindings than
+    OIDs were requested and no endOfMibView, the columns left without a binding are requested
+    with one repetition.  Every round adds at least one binding, so `oids.length` rounds are
+    enough (the fuel runs out only when the loop condition is false anyway). -/
+def completeRow (x : Exchange) (oids : List Oid) : Nat → List VarBind → Except Err (List VarBind)
+  | 0, vbs => pure vbs
+  | fuel + 1, vbs =>
+    if 0 < vbs.length && vbs.length < oids.length && vbs.all notEom then do
+      let missing ← bulkVarbinds x [] (oids.drop vbs.length) 1
+      if missing.isEmpty then pure vbs else completeRow x oids fuel (vbs ++ missing)
+    else pure vbs
+
 /-- `Client._bulkwalk_fetcher(bulk_size)` -/
 def bulkFetcher (x : Exchange) (size : Nat) (oids : List Oid) : Except Err (List VarBind) := do
-  let vbs ← bulkVarbinds x [] oids size
+  let first ← bulkVarbinds x [] oids size
+  let vbs ← completeRow x oids oids.length first
   let output := vbs.takeWhile notEom
   if checkColumns oids.length oids 0 output then pure output else throw .faulty
+
+/-- the extra requests `completeRow` puts on the wire (the same recursion, recording the requested
+    OID lists instead of returning the bindings) — used by the driver to print the wire trace -/
+def completeRowReqs (x : Exchange) (oids : List Oid) : Nat → List VarBind → List (List Oid)
+  | 0, _ => []
+  | fuel + 1, vbs =>
+    if 0 < vbs.length && vbs.length < oids.length && vbs.all notEom then
+      let rest := oids.drop vbs.length
+      match bulkVarbinds x [] rest 1 with
+      | .error _ => [rest]
+      | .ok missing => if missing.isEmpty then [rest] else rest :: completeRowReqs x oids fuel (vbs ++ missing)
+    else []
+
+def bulkFetcherExtraReqs (x : Exchange) (size : Nat) (oids : List Oid) : List (List Oid) :=
+  match bulkVarbinds x [] oids size with
+  | .error _ => []
+  | .ok first => completeRowReqs x oids oids.length first
 
 abbrev Groups := List (Oid × List VarBind)
 
